@@ -276,6 +276,18 @@ void mut_algos(char const *sn, ivec const &v, std::string const &xs, bool full, 
     bool const res = fcppt::algorithm::remove(c, val);
     r.kb("r", res).k("st", seqj(c)).end();
   }
+  // the value is a reference to an element of the container itself (legal: the parameter is a
+  // const_reference); the record carries its value before the call
+  for (std::size_t i = 0; i < v.size(); ++i)
+  {
+    Cont c(v.begin(), v.end());
+    auto it(c.begin());
+    std::advance(it, static_cast<std::ptrdiff_t>(i));
+    Rec r("remove");
+    r.ks("src", sn).k("xs", xs).ki("v", v[i]).ki("alias", static_cast<long long>(i)).begin();
+    bool const res = fcppt::algorithm::remove(c, *it);
+    r.kb("r", res).k("st", seqj(c)).end();
+  }
   {
     Cont c(v.begin(), v.end());
     Rec r("unique");
